@@ -44,3 +44,19 @@ Fixpoint tokens_ok (before : str) (toks : list (str * str)) (final_rest : str) :
     str_eqb (skipn n before) final_rest && only_skipped (S (length before)) (firstn n before)
   | (text, after) :: tl => token_ok before text after && tokens_ok after tl final_rest
   end.
+
+(* The same law as a proposition (what Props/C10sh.v states about repeated ShToken
+   calls): l lists, per token, its text, the texts of its atoms and the rest
+   reported after the call; `final` is the rest after the last call (the one that
+   returned nil). *)
+Definition skipped_ok (p : str) : Prop :=
+  p <> [] /\ (forallb is_hspace p = true \/ p = ulimit_text).
+
+Fixpoint chain_ok (before : str) (l : list (str * list str * str)) (final : str) : Prop :=
+  match l with
+  | [] => exists pieces, Forall skipped_ok pieces /\ before = concat pieces ++ final
+  | (text, atoms, after) :: tl =>
+    (exists pieces, Forall skipped_ok pieces /\ before = concat pieces ++ text ++ after) /\
+    text <> [] /\ text = concat atoms /\ atoms <> [] /\ Forall (fun a => a <> []) atoms /\
+    chain_ok after tl final
+  end.
